@@ -36,6 +36,7 @@ def cells(tier, seed):
         out.append({'id': f"enzyme-factory/{text.replace('/', '_')}", 'fn': 'h_enzyme_factory', 'round': 'lite',
                     'max_paths': 20, 'params': {'unit': text}})
     out.append({'id': "inf-density-smoke", 'fn': 'h_inf_smoke', 'round': 'lite', 'max_paths': 5, 'params': {}})
+    out.append({'id': "history/same-name-substances", 'fn': 'h_same_name', 'round': 'lite', 'max_paths': 20, 'params': {}})
     return out
 
 
@@ -179,6 +180,27 @@ def h_enzyme_factory(h):
     h.require('specific-activity', h.eq(s.specific_activity, want, h.rs(h.ulp * 10 * (1 + want * want))), region=unit)
     h.require('enzyme-flags', h.true(s.is_enzyme() and not s.is_solid() and not s.is_liquid()))
     h.outcome = 'ok'
+
+
+def h_same_name(h):
+    """conversions depend on the substance's own attributes, not on what was converted before: two substances that share
+    a name (two lots of an enzyme with different specific activity, two grades of a liquid) converted one after the
+    other with the same amount and units"""
+    S, U = h.env.Substance, h.env.Unit
+    q = h.real('q', Fr(1, 1000), 10**6)
+    sa1, sa2 = h.real('sa1', 1, 10**4), h.real('sa2', 1, 10**4)
+    h.assume(h.gt(sa2, sa1))
+    e1, e2 = S.enzyme('lot', f"{sa1} U/g"), S.enzyme('lot', f"{sa2} U/g")
+    h.outcome = 'ok'
+    for (fu, tu, f1, f2) in [('g', 'U', sa1, sa2), ('mg', 'kU', sa1 / 10**6, sa2 / 10**6), ('U', 'g', 1 / sa1, 1 / sa2)]:
+        a = U.convert_from(e1, q, fu, tu)
+        b = U.convert_from(e2, q, fu, tu)
+        h.require('history-independent', h.eq(a, q * f1) & h.eq(b, q * f2), region=f"{fu}->{tu}",
+                  detail="the second lot must be converted with its own specific activity")
+    mw1, mw2 = h.real('mw1', 10, 100), h.real('mw2', 100, 1000)
+    l1, l2 = S.liquid('grade', mw1, h.const(1)), S.liquid('grade', mw2, h.const(1))
+    a, b = U.convert_from(l1, q, 'mol', 'g'), U.convert_from(l2, q, 'mol', 'g')
+    h.require('history-independent', h.eq(a, q * mw1) & h.eq(b, q * mw2), region='mol->g')
 
 
 def h_inf_smoke(h):
